@@ -25,7 +25,7 @@ def r_C03a(root):
                     out.append(Finding("C03", "C03.a", rel, qualname(n), ast.unparse(n), "operand %r is not of kind %s" % (ast.unparse(o), want[0])))
     return inst, out
 def r_C33a(root):
-    t = load(root, "textx/metamodel.py"); fn = find(t, "TextXMetaModel.process")
+    fn = find_i(root, "textx/metamodel.py", "TextXMetaModel.process")
     gl = find(load(root, "textx/model.py"), "get_location")
     ret = [s for s in gl.body if isinstance(s, ast.Return)][0].value
     keys = [k.value for k in ret.keys]
